@@ -77,6 +77,49 @@ class _Chooser:
         return getattr(self.ctx, a)
 
 
+class _Prefixed:
+    """prefixes the names of symbolic inputs / choices: several operations in one scenario"""
+
+    def __init__(self, ctx, prefix):
+        self.ctx, self.prefix = ctx, prefix
+
+    def real(self, name, *a, **k):
+        return self.ctx.real(self.prefix + name, *a, **k)
+
+    def int(self, name, *a, **k):
+        return self.ctx.int(self.prefix + name, *a, **k)
+
+    def choose(self, name, options):
+        return self.ctx.choose(self.prefix + name, options)
+
+    def absstr(self, name, *a, **k):
+        return self.ctx.absstr(self.prefix + name, *a, **k)
+
+    def chars(self, name, *a, **k):
+        return self.ctx.chars(self.prefix + name, *a, **k)
+
+    def __getattr__(self, a):
+        return getattr(self.ctx, a)
+
+
+def run_seq(ctx, W, ops):
+    """several operations (aspirate / dispense / transfer) on the same world and worklist; W.named / W.pairs accumulate"""
+    base = dict(W.p)
+    named, pairs, cfgs = [], [], []
+    W.op_outcomes = []
+    for i, op in enumerate(ops):
+        W.p = dict(base, **op)
+        W.named, W.pairs = [], []
+        run(_Prefixed(ctx, f"op{i + 1}:"), W)
+        named += W.named
+        pairs += W.pairs
+        cfgs.append(W.cfg)
+        W.named, W.pairs = list(named), list(pairs)   # visible to the judge if a later operation raises
+    W.p = dict(base, op="seq")
+    W.cfg = tuple(cfgs)
+    return W
+
+
 def run(ctx, W, memo=None):
     if memo is not None:
         ctx = _Chooser(ctx, memo)
